@@ -3,6 +3,7 @@ package airgapped
 import (
 	"crypto/sha256"
 	"encoding/json"
+	"errors"
 	"fmt"
 
 	"github.com/lidofinance/dc4bc/fsm/fsm"
@@ -73,6 +74,11 @@ func (am *Machine) handleStateDkgCommitsAwaitConfirmations(o *client.Operation) 
 
 	if err = json.Unmarshal(o.Payload, &payload); err != nil {
 		return fmt.Errorf("failed to unmarshal payload: %w", err)
+	}
+	for _, r := range payload {
+		if r == nil {
+			return errors.New("payload contains an empty participant entry")
+		}
 	}
 
 	pid := -1
@@ -167,6 +173,9 @@ func (am *Machine) handleStateDkgDealsAwaitConfirmations(o *client.Operation) er
 	}
 
 	for _, entry := range payload {
+		if entry == nil {
+			return errors.New("payload contains an empty participant entry")
+		}
 		var commitsBz [][]byte
 		if err = json.Unmarshal(entry.DkgCommit, &commitsBz); err != nil {
 			return fmt.Errorf("failed to unmarshal commits: %w", err)
@@ -249,6 +258,9 @@ func (am *Machine) handleStateDkgResponsesAwaitConfirmations(o *client.Operation
 	}
 
 	for _, entry := range payload {
+		if entry == nil {
+			return errors.New("payload contains an empty participant entry")
+		}
 		//do not store deals from ourselves because of the hack above
 		if entry.ParticipantId == dkgInstance.ParticipantID {
 			continue
@@ -260,6 +272,9 @@ func (am *Machine) handleStateDkgResponsesAwaitConfirmations(o *client.Operation
 		var deal dkgPedersen.Deal
 		if err = json.Unmarshal(decryptedDealBz, &deal); err != nil {
 			return fmt.Errorf("failed to unmarshal deal")
+		}
+		if deal.Deal == nil {
+			return fmt.Errorf("deal from %s is empty", entry.Username)
 		}
 		dkgInstance.StoreDeal(entry.Username, &deal)
 	}
@@ -310,9 +325,17 @@ func (am *Machine) handleStateDkgMasterKeyAwaitConfirmations(o *client.Operation
 	}
 
 	for _, entry := range payload {
+		if entry == nil {
+			return errors.New("payload contains an empty participant entry")
+		}
 		var entryResponses []*dkgPedersen.Response
 		if err = json.Unmarshal(entry.DkgResponse, &entryResponses); err != nil {
 			return fmt.Errorf("failed to unmarshal responses: %w", err)
+		}
+		for _, response := range entryResponses {
+			if response == nil || response.Response == nil {
+				return fmt.Errorf("responses from %s contain an empty response", entry.Username)
+			}
 		}
 		dkgInstance.StoreResponses(entry.Username, entryResponses)
 	}
